@@ -375,12 +375,22 @@ def suites(rng, tier):
         {"suite": "auth", "name": "signer-rule-fn", "lines": signer_rule_cases(rng, {"quick": 500, "thorough": 20000, "search": 2000}[tier]),
          "distribution": {"exhaustive_flag_words": 128, "signer_configs": 5}},
         oracle_substitution_suite(rng, {"quick": 1500, "thorough": 30000, "search": 6000}[tier]),
+        fee_destination_suite(rng, {"quick": 250, "thorough": 5000, "search": 1500}[tier]),
         {"suite": "hops", "name": "tokenless-repay-role",
          "lines": [HG.gen_tokenless_case(rng) for _ in range({"quick": 250, "thorough": 6000, "search": 2000}[tier])],
          "distribution": {"note": "the risk admin's token-less repayment on sunset banks through the real repay handler: signer = risk admin / account authority / authority of another account; account in receivership or not; only the risk admin's repay_all may skip the token transfer"}},
         {"suite": "txval", "name": "receivership-bracket-shapes", "lines": TG.val_exhaustive(rng, "liq3", 4 if tier != "thorough" else 5),
          "distribution": {"alphabet": TG.ALPHABETS["liq3"], "note": "the 'strictly inside an active receivership' clause: transaction shapes with repeated / trailing-byte start and end instructions; a receivership that is not closed by its own end instruction lets any signer withdraw / repay afterwards"}},
     ]
+
+
+def fee_destination_suite(rng, n):
+    """substituting the fee destination: fee-collection histories (C19's generator: program fees enabled or not, zero and
+    non-zero fee rates, Token-2022 mints) in which lending_pool_collect_bank_fees is also called with a FOREIGN token account
+    in place of the global fee wallet's canonical ATA (hops op 32) - must always be refused"""
+    from props import c19 as C19
+    lines = [C19.add_collects(rng, C19.gen_fee_case(rng)) for _ in range(n)]
+    return {"suite": "hops", "name": "fee-destination-substitution", "lines": lines, "distribution": {"cases": n}}
 
 
 SUBST_REASONS = ("oracle key differs", "venue account key differs", "stake accounts differ", "not owned by", "wrong number of oracle accounts")
@@ -491,7 +501,7 @@ def must_reject(k):
 def nontrivial(suite, case, impl):
     if suite == "hops":
         tr = HO.Trace(case, impl)
-        return tr.ok and any(op[0] == 4 and res == "OK" for op, res, *_ in HO.walk(tr))
+        return tr.ok and any((op[0] == 4 and res == "OK") or op[0] == 32 for op, res, *_ in HO.walk(tr))
     if suite == "txval":
         return C10.nontrivial(suite, case, impl)
     if suite == "oracle":
@@ -534,7 +544,12 @@ def oracle_substitution(case, impl):
 
 def oracle(suite, case, impl):
     if suite == "hops":
-        return HO.oracle_tokenless_role(HO.Trace(case, impl))
+        tr = HO.Trace(case, impl)
+        v = HO.oracle_tokenless_role(tr)
+        if v:
+            return v
+        v = HO.oracle_c19(tr)
+        return v if v and v["key"] == "fees-paid-to-foreign-account" else None
     if suite == "oracle":
         return oracle_substitution(case, impl)
     if suite == "txval":
